@@ -261,7 +261,17 @@ def gen_scripts(rng, world, ctx):
             st.append({"op": "optimize", "obj": P, "solver": rng.choice([None, None, "SCIPY"]),
                        "fault": ("raise" if rng.random() < 0.1 else None)})
             if rng.random() < 0.5:
-                st.append({"op": rng.choice(["extract", "extract", "dcf"]), "obj": P})
+                ex = {"op": rng.choice(["extract", "extract", "dcf"]), "obj": P}
+                if rng.random() < 0.3:
+                    # an asset of the portfolio is used on its own in between; the report is drawn up afterwards
+                    a_ = rng.choice(world["portfolios"][P]["assets"])
+                    g2_ = rng.choice(grids)
+                    p2_ = _p(rng, ctx, g2_)
+                    st.append({"op": "a.setup", "obj": a_, "grid": g2_, "prices": p2_, "cast": _cast(rng, world, p2_), "costs_only": False})
+                    st.append(ex)
+                    st.append({"op": "a.setup", "obj": a_, "grid": None, "prices": p2_, "cast": False, "costs_only": False})
+                else:
+                    st.append(ex)
             if rng.random() < 0.5:
                 fid = "f%d" % fix_n[0]
                 fix_n[0] += 1
@@ -774,6 +784,23 @@ class Exec:
             lst = [B.prices(p) for p in st["prices"]]
         return o.create_cost_samples(lst, g)
 
+    def fresh_twin(self):
+        """Brand-new objects from the pristine spec, holding what the user's objects hold now (price updates,
+        assigned parameters)."""
+        tw = specs.Builder(self.w)
+        tw.price_updates = self.price_updates    # the fresh twin's price containers hold what the user's hold now
+        if self.attr_updates:
+            # as in the history: every object (wrappers included) exists before the user assigns anything
+            for aid in sorted(self.w["assets"], key=lambda a_: int(a_[1:])):
+                try:
+                    tw.asset(aid)
+                except Exception:
+                    pass
+            for aid, ups in self.attr_updates.items():
+                for attr, new in ups:
+                    setattr(tw.asset(aid), attr, new)
+        return tw
+
     # ---- judged step
     def judged(self, i, st, sys_fn, twin_fn, gid_eff, judge=True, rtol=None):
         self.stats["calls"] += 1
@@ -787,18 +814,7 @@ class Exec:
         if judge:
             self.stats["judged"] += 1
             self.stats["twin_calls"] += 1
-            tw = specs.Builder(self.w)
-            tw.price_updates = self.price_updates    # the fresh twin's price containers hold what the user's hold now
-            if self.attr_updates:
-                # as in the history: every object (wrappers included) exists before the user assigns anything
-                for aid in sorted(self.w["assets"], key=lambda a_: int(a_[1:])):
-                    try:
-                        tw.asset(aid)
-                    except Exception:
-                        pass
-                for aid, ups in self.attr_updates.items():
-                    for attr, new in ups:
-                        setattr(tw.asset(aid), attr, new)
+            tw = self.fresh_twin()
             t = _call(lambda: twin_fn(tw))
             v = None
             if s.exc is not None and t.exc is not None:
@@ -1083,25 +1099,41 @@ class Exec:
             elif op == "g.wacc":
                 self.B.grid(st["grid"]).set_wacc(st["wacc"])
                 M.grid_wacc[st["grid"]] = st["wacc"]
-            elif op == "set_param":
-                # io.set_param returns a new object built through JSON; the object it was given must stay as it was
-                o = self.B.obj(st["obj"])
-                tree = eao.io.get_params_tree(o)[0]
-                path = ["name"] if "name" in tree else next((list(t_) for t_ in tree if isinstance(t_, list) and t_ and t_[-1] == "name"), None)
-                if path is not None:
-                    eao.io.set_param(o, path, "renamed")
-                    self.probe("set_param_called")
-            elif op in ("to_json", "roundtrip", "params", "to_json_file"):
-                o = self.B.obj(st["obj"])
+            elif op in ("to_json", "roundtrip", "params", "set_param"):
+                # serialise calls are later calls too: one that fails on the used objects must fail on fresh ones as well
                 if any(a in M.chp_setup for a in subtree_assets(self.w, st["obj"])):
                     self.probe("serialise_after_chp_setup")
-                if op == "to_json":
-                    eao.serialization.to_json(o)
-                elif op == "roundtrip":
-                    eao.serialization.load_from_json(eao.serialization.to_json(o))
-                elif op == "params":
-                    eao.io.get_params_tree(o)
-                else:
+
+                def ser(B):
+                    o = B.obj(st["obj"])
+                    if op == "to_json":
+                        eao.serialization.to_json(o)
+                    elif op == "roundtrip":
+                        eao.serialization.load_from_json(eao.serialization.to_json(o))
+                    elif op == "params":
+                        eao.io.get_params_tree(o)
+                    else:
+                        # io.set_param returns a new object built through JSON; the object it was given must stay as it was
+                        tree = eao.io.get_params_tree(o)[0]
+                        path = ["name"] if "name" in tree else next((list(t_) for t_ in tree if isinstance(t_, list) and t_ and t_[-1] == "name"), None)
+                        if path is not None:
+                            eao.io.set_param(o, path, "renamed")
+                s_ = _call(lambda: ser(self.B))
+                if s_.exc is not None:
+                    out = "raise:%s@%s" % canon.exc_sig(s_.exc)
+                    t_ = _call(lambda: ser(self.fresh_twin()))
+                    self.stats["twin_calls"] += 1
+                    if t_.exc is None:
+                        et, fr = canon.exc_sig(s_.exc)
+                        self.violation = {"clause": "breaks-later-call", "field": "%s@%s" % (et, fr), "step": i, "op": op,
+                                          "detail": "after this history %s raises %s (%s) in %s; the same call on fresh objects succeeds"
+                                                    % (op, et, str(s_.exc)[:160], fr),
+                                          "signature": "%s|%s|%s|%s@%s" % (ID, "breaks-later-call", op, et, fr)}
+                if op == "set_param":
+                    self.probe("set_param_called")
+            elif op == "to_json_file":
+                o = self.B.obj(st["obj"])
+                if True:
                     faults = [("write", "eio_close")] if st.get("fault") == "eio" else []
                     try:
                         with self.disk.mounted(faults) as d:
